@@ -255,6 +255,7 @@ def sort_idx_canonical(idx: Index):
                 idx.spin,
                 int(idx.name[1:]) if idx.name[1:] else 0,
                 idx.name[0],
+                idx.name,
                 hash(idx))
     else:  # necessary for subs to work correctly with simultaneous=True
         return ('', 0, str(idx), hash(idx))
